@@ -1,8 +1,9 @@
-use core::{alloc::Layout, ops::Range, ptr::NonNull};
+use core::{alloc::Layout, num::NonZeroUsize, ops::Range, ptr::NonNull};
 
 use crate::{
     BaseAllocator, Bump, BumpScope, Checkpoint, WithoutDealloc, WithoutShrink,
     alloc::{AllocError, Allocator},
+    down_align_usize,
     layout::CustomLayout,
     raw_bump::RawChunk,
     settings::BumpAllocatorSettings,
@@ -425,7 +426,6 @@ where
     unsafe fn allocate_prepared(&self, layout: Layout, range: Range<NonNull<u8>>) -> NonNull<u8> {
         debug_assert_eq!(range.start.addr().get() % layout.align(), 0);
         debug_assert_eq!(range.end.addr().get() % layout.align(), 0);
-        debug_assert_eq!(layout.size() % layout.align(), 0);
 
         unsafe {
             // a successful `prepare_allocation` guarantees a non-dummy-chunk
@@ -438,7 +438,10 @@ where
             } else {
                 let src = range.start;
                 let dst_end = range.end;
-                let dst = dst_end.sub(layout.size());
+                // The size does not need to be a multiple of the alignment, so we need to align.
+                // This can't go below `range.start`, which is aligned too.
+                let dst_addr = down_align_usize(dst_end.addr().get() - layout.size(), layout.align());
+                let dst = dst_end.with_addr(NonZeroUsize::new_unchecked(dst_addr));
                 src.copy_to(dst, layout.size());
                 chunk.set_pos_addr_and_align(dst.addr().get());
                 dst
@@ -456,7 +459,6 @@ where
     unsafe fn allocate_prepared_rev(&self, layout: Layout, range: Range<NonNull<u8>>) -> NonNull<u8> {
         debug_assert_eq!(range.start.addr().get() % layout.align(), 0);
         debug_assert_eq!(range.end.addr().get() % layout.align(), 0);
-        debug_assert_eq!(layout.size() % layout.align(), 0);
 
         unsafe {
             // a successful `prepare_allocation` guarantees a non-dummy-chunk
@@ -476,7 +478,12 @@ where
                 dst
             } else {
                 let dst_end = range.end;
-                let dst = dst_end.sub(layout.size());
+                let src = dst_end.sub(layout.size());
+                // The size does not need to be a multiple of the alignment, so we need to align.
+                // This can't go below `range.start`, which is aligned too.
+                let dst_addr = down_align_usize(src.addr().get(), layout.align());
+                let dst = src.with_addr(NonZeroUsize::new_unchecked(dst_addr));
+                src.copy_to(dst, layout.size());
                 chunk.set_pos_addr_and_align(dst.addr().get());
                 dst
             }
